@@ -183,3 +183,12 @@ package ftp
 //@   check safety
 //@   requires listener != nil && socket != nil
 //@   modifies *
+//
+// ---- per-connection command log (properties C09 and C03) ----
+// The channel handed to the connection object is created for this connection (so the pump goroutine
+// started beside it sees this connection's commands only) and is closed before Handle returns (so the
+// pump's range loop ends: no goroutine is left behind per past connection).
+//@ func (*ftpService).Handle
+//@   callpre (*Server).newConn: fresh(recv)
+//@   ensures [pump-ends] closed(recv)
+//@   modifies *
